@@ -5,7 +5,7 @@ use tokio::sync::mpsc::{unbounded_channel, UnboundedReceiver, UnboundedSender};
 /// library side of the pipe (wrapped by `PhysLayer::Verif`)
 pub struct VerifIo {
     rx: UnboundedReceiver<Vec<u8>>,
-    tx: UnboundedSender<Vec<u8>>,
+    tx: UnboundedSender<(Option<tokio::time::Instant>, Vec<u8>)>,
     pending: VecDeque<u8>,
     datagram: bool,
 }
@@ -13,7 +13,7 @@ pub struct VerifIo {
 /// harness side of the pipe
 pub struct VerifPeer {
     pub to_lib: Option<UnboundedSender<Vec<u8>>>,
-    pub from_lib: UnboundedReceiver<Vec<u8>>,
+    pub from_lib: UnboundedReceiver<(Option<tokio::time::Instant>, Vec<u8>)>,
 }
 
 pub fn pipe(datagram: bool) -> (VerifIo, VerifPeer) {
@@ -57,8 +57,10 @@ impl VerifIo {
     }
 
     pub async fn write_all(&mut self, data: &[u8]) -> std::io::Result<()> {
+        // the (virtual) instant of the write, when a tokio runtime with a clock is running
+        let now = if tokio::runtime::Handle::try_current().is_ok() { Some(tokio::time::Instant::now()) } else { None };
         self.tx
-            .send(data.to_vec())
+            .send((now, data.to_vec()))
             .map_err(|_| std::io::Error::new(std::io::ErrorKind::BrokenPipe, "verif peer closed"))
     }
 }
@@ -76,6 +78,10 @@ impl VerifPeer {
     }
     /// everything the library has written so far (non-blocking), one Vec per `write` call
     pub fn drain(&mut self) -> Vec<Vec<u8>> {
+        self.drain_timed().into_iter().map(|x| x.1).collect()
+    }
+    /// same, with the virtual instant of each write
+    pub fn drain_timed(&mut self) -> Vec<(Option<tokio::time::Instant>, Vec<u8>)> {
         let mut out = Vec::new();
         while let Ok(x) = self.from_lib.try_recv() {
             out.push(x);
